@@ -156,7 +156,7 @@ Proof. exact bad_add_refuted. Qed.
 
 (* ---- tie to the current source: regenerated on every run by tools/ga2coq (coq/gen) ---- *)
 From Coq Require Import String.
-From GA Require Import Guards GuardTie.
+From GA Require Import Guards GuardTieChunks.
 From GAGen Require Import GenGuards GenConstFns.
 Local Open Scope Z_scope.
 
@@ -205,7 +205,7 @@ Proof. exact tie_slice_from_chunks. Qed.
 
 (* from_chunks / from_chunks_mut / into_chunks / into_chunks_mut as they stand in src/lib.rs now
    (coq/gen/GenSigs.v): one transmute of the slice reference each *)
-From GA Require Import SigTie.
+From GA Require Import SigDefs.
 From GAGen Require Import GenSigs.
 Local Open Scope string_scope.
 Theorem C10_source_chunk_casts :
@@ -218,7 +218,7 @@ Proof. repeat split. Qed.
 (* ---- T1: the one-expression bodies this property's code consists of besides the modelled core, as they stand
         in the source now (coq/gen/GenSigs.v gen_thin_bodies) ---- *)
 From Coq Require Import String.
-From GA Require Import SigTie.
+From GA Require Import SigDefs.
 From GAGen Require Import GenSigs.
 Local Open Scope string_scope.
 
